@@ -320,8 +320,25 @@ def run(run):
                         seen.add(e)
                         sel.append(i)
                 pts = sel
+            # first-level points whose recovery is itself enumerated in the
+            # quick tier too: right after the backup, in the middle of the
+            # overwrite, right after its commit, at the start of the close
+            strategic = set()
+            if flow == "backup":
+                for fn_name, pick in (("backup_db", -1), ("overwrite_pages", -1),
+                                      ("close_db_conn", 0),
+                                      ("overwrite_single_page", 0)):
+                    idx = [i for i, e in enumerate(events, 1) if e[0] == fn_name]
+                    if idx:
+                        strategic.add(idx[pick])
+                        strategic.add(min(n, idx[pick] + 1))
+                mid = [i for i, e in enumerate(events, 1) if e[0] == "add_page"]
+                if mid:
+                    strategic.add(mid[len(mid) // 2])
+            pts = sorted(set(pts) | strategic)
             for k in pts:
-                level2 = (not quick) and flow == "backup" and k % 3 == 0
+                level2 = flow == "backup" and (
+                    k in strategic or ((not quick) and k % 3 == 0))
                 jobs.append((variant, flow, k, False, commit_event, level2,
                              events[k - 1]))
             jobs.append((variant, flow, None, False, commit_event, False,
@@ -373,9 +390,11 @@ def run(run):
         "backup_db, close_db_conn, add_page, backup_db_path, overwrite_pages, "
         "overwrite_single_page, analyze_and_overwrite_pages and os._exit()s "
         "at the k-th line event, for every k (thorough; quick: every "
-        "distinct source line once plus every 5th event); thorough also kills "
-        "the recovering open at each of its line events for every third "
-        "first-level point, and SIGKILLs at 80 drawn delays during the "
+        "distinct source line once plus every 5th event); the recovering open "
+        "is itself killed at each of its line events for ~10 strategic "
+        "first-level points (after the backup, mid-overwrite, after the "
+        "overwrite's commit, at the close) and in the thorough tier for "
+        "every third first-level point; thorough also SIGKILLs at 80 drawn delays during the "
         "life-cycle on a ~4 MB database. Oracle, from a pristine process "
         "opening the path: no exception, PRAGMA integrity_check = ok, and the "
         "page map equals v1 whenever a backup flow is used (the backup is "
